@@ -23,31 +23,45 @@ def run(tier):
         key = "cglue/" + p
         body = mir.Body(fn)
         if p == ARC + "c_clone":
-            kinds = sorted(s.kind for s in sites)
-            ok = ns == {-1, 0} and kinds == ["arc_from_raw", "arc_into_raw", "arc_into_raw"]
-            if ok:
-                sws = [s for s in mir.discr_switches(body) if s[1] == ("discr", ("arg", 1))]
-                some_b = mir.dominated(body, sws[0][2].get(1)) if sws else set()
-                ok = bool(sws) and all(s.bb in some_b for s in sites)
-                fr = [s for s in sites if s.kind == "arc_from_raw"][0]
-                ir = [s for s in sites if s.kind == "arc_into_raw"]
-                src = forward.leafify(body.origin_operand(fr.term["args"][0]))
-                while src[0] == "cast":
-                    src = forward.leafify(src[2])
-                ok = ok and src == ("field", ("downcast", ("arg", 1), "Some"), "0")
-                # one into_raw gives the borrowed Arc back, the other leaks the clone, whose pointer is returned
-                a0 = [body.origin_operand(s.term["args"][0]) for s in ir]
-                gave_back = [a for a in a0 if a[0] == "call" and a[1].endswith("Arc::<T>::from_raw")]
-                leaked = [a for a in a0 if a[0] == "call" and a[1] == "std::clone::Clone::clone"]
-                ok = ok and len(gave_back) == 1 and len(leaked) == 1 and forward.leafify(leaked[0][2][0]) == gave_back[0]
-            ck.ob("A-clone-fn-adds-one-reference", key, ok, "c_clone must borrow the Arc (from_raw .. into_raw), clone it once and leak exactly the clone, only for Some(p)",
-                  sample={"fn": p, "sites": [repr(s) for s in sites]})
+            # one strong reference is added for Some(p), nothing happens for None.  Accepted ways of adding it:
+            #   borrow the Arc (from_raw), clone it, neutralise the borrowed owner (into_raw / ManuallyDrop::new / forget) and leak the clone;
+            #   or Arc::increment_strong_count(p).
+            sws = [s for s in mir.discr_switches(body) if s[1] == ("discr", ("arg", 1))]
+            arms = mir.enum_arms(body, sws[0]) if sws else {}
+            some_b = mir.dominated(body, arms[1]) if 1 in arms else set()
+            payload = ("field", ("downcast", ("arg", 1), "Some"), "0")
+            ok = ns == {-1, 0} and bool(some_b) and all(s.bb in some_b for s in sites)
+            incs = [s for s in sites if s.kind == "increment_strong_count"]
+            frs = [s for s in sites if s.kind == "arc_from_raw"]
+            ret = body.origin_local(0)
+            if ok and incs:
+                ok = len(sites) == 1 and mir.peel(body.origin_operand(incs[0].term["args"][0])) == payload and not body.in_cycle(incs[0].bb) \
+                    and mir.contains(ret, lambda x: mir.peel(x) == payload or x == ("arg", 1))
+            elif ok:
+                ok = len(frs) == 1 and mir.peel(body.origin_operand(frs[0].term["args"][0])) == payload
+
+                def is_borrowed(o):
+                    o = mir.peel(o)
+                    return o[0] == "call" and o[1].endswith("Arc::<T>::from_raw") and len(o) > 3 and o[3] == frs[0].bb
+                if ok:
+                    neutral = [s for s in sites if s.kind in ("arc_into_raw", "manuallydrop_new", "forget") and is_borrowed(body.origin_operand(s.term["args"][0]))]
+                    clones = [(i, t) for i, t in body.calls() if (mir.callee_path(t) or "") == "std::clone::Clone::clone" and is_borrowed(body.origin_operand(t["args"][0]))]
+                    ok = len(neutral) == 1 and len(clones) == 1 and not body.in_cycle(clones[0][0])
+                if ok:
+                    def is_clone(o):
+                        o = mir.peel(o, through_manuallydrop=False)
+                        return o[0] == "call" and o[1] == "std::clone::Clone::clone" and len(o) > 3 and o[3] == clones[0][0]
+                    leaks = [s for s in sites if s.kind == "arc_into_raw" and is_clone(body.origin_operand(s.term["args"][0]))]
+                    ok = len(leaks) == 1 and len(sites) == 3 and mir.contains(ret, lambda x: x[0] == "call" and x[1].endswith("Arc::<T>::into_raw") and len(x) > 3 and x[3] == leaks[0].bb)
+            ck.ob("A-clone-fn-adds-one-reference", key, ok, "c_clone must add exactly one strong reference for Some(p) (borrow the Arc, clone it once, neutralise the borrowed owner and leak "
+                  "the clone whose pointer is returned; or increment_strong_count(p)) and do nothing for None", sample={"fn": p, "sites": [repr(s) for s in sites]})
             return True
         if p == ARC + "c_drop":
             ok = ns == {0, 1} and [s.kind for s in sites] == ["arc_from_raw"]
             if ok:
                 sws = [s for s in mir.discr_switches(body) if s[1] == ("discr", ("arg", 1))]
-                ok = bool(sws) and sites[0].bb in mir.dominated(body, sws[0][2].get(1))
+                arms = mir.enum_arms(body, sws[0]) if sws else {}
+                ok = 1 in arms and sites[0].bb in mir.dominated(body, arms[1])
             ck.ob("A-drop-fn-releases-one-reference", key, ok, "c_drop must rebuild and drop exactly one Arc, only for Some(p)", sample={"fn": p})
             return True
         if fn.get("impl_trait") == "std::ops::Drop" and fn.get("impl_self_adt") == ARC + "CArc":
@@ -63,7 +77,7 @@ def run(tier):
         return False
 
     n_sites, summ = c06.classify_library(ck, f, "cglue-lib", ("/arc.rs",), "cglue", extra_ok=extra_ok)
-    ck.floor("ownership primitive sites in arc.rs", n_sites, 11)
+    ck.floor("ownership primitive sites in arc.rs", n_sites, 9)
     fns = {x["path"]: x for x in f.fns("cglue-lib") if "/arc.rs" in x["span"]}
     # the constructors store both reclaimers, instantiated at their own T
     n_ctor = 0
@@ -176,7 +190,7 @@ def run(tier):
         src = ret[2][0] if ret[0] == "call" else ("?",)
         while src[0] == "cast":
             src = forward.leafify(src[2])
-        ck.ob("L5-into-arc-uses-own-pointer", "cglue/into_arc", ret[0] == "call" and ret[1].endswith("Arc::<T>::from_raw") and forward.leafify(src) == ("field", ("arg", 1), "instance") and ia.get("unsafe"),
+        ck.ob("L5-into-arc-uses-own-pointer", "cglue/into_arc", ret[0] == "call" and ret[1].endswith("Arc::<T>::from_raw") and mir.peel_place(src) == ("field", ("arg", 1), "instance") and ia.get("unsafe"),
               "into_arc must rebuild the Arc from its own instance and be an unsafe fn")
     # reinterpretation guarded by is_none
     n_g = 0
@@ -209,7 +223,8 @@ def run(tier):
         sws = mir.discr_switches(body)
         ok = len(sws) == 1 and sws[0][1][0] == "discr" and sws[0][1][1][0] == "call"
         if ok:
-            none_b = mir.dominated(body, sws[0][2].get(0))
+            arms = mir.enum_arms(body, sws[0])
+            none_b = mir.dominated(body, arms[0]) if 0 in arms else set()
             d0 = [d for d in body.defs().get(0, []) if d[0] in none_b]
             ok = len(d0) == 1 and d0[0][2] == "call" and mir.callee_path(d0[0][3]) == "std::default::Default::default"
         ck.ob("E-empty-clones-to-empty", "cglue/CArc::clone", ok, "cloning an empty CArc must yield Default (empty)")
